@@ -13,6 +13,14 @@ CLAIMED = {
  "C10": ("score / candidate / window laws as TLC-checked theorems on complete small domains; trace validation of scores, candidates and windows on recorded pairs with the laws re-checked on recorded values", "5 C10"),
  "C17": ("exhaustive TLC over all re-initialisation histories of a scaled position array; trace validation of real init_from/From/clear histories incl. all 64 masks", "5 C17"),
  "C20": ("complete finite domains dumped from the implementation and judged row by row by TLC against the TLA+ definitions", "5 C20"),
+
+ "C04": ("declarative grammar in TLA+ (Text.tla Parse) as oracle; TLC round-trip lemmas; trace validation of all six parsers on exhaustive short texts, structured capacity-border texts and mutations", "5 C04"),
+ "C05": ("Format/LenInStr/Parse in TLA+; TLC round-trip lemma on a complete small domain; trace validation of every formatter and buffer length, and text->object->text on accepted texts", "5 C05"),
+ "C06": ("declarative Normalize in TLA+; exhaustive TLC agreement of the implementation-shaped run collapsing routes (MCDual); trace validation of 16 normalisation routes on systematic run layouts", "5 C06"),
+ "C07": ("RLE encoding spec (Dual.tla): exhaustive TLC that both encoder routes are canonical, valid, lossless and injective on the scaled domain; trace validation of 7 construction routes per raw hash", "5 C07"),
+ "C11": ("abstract slot machine in TLA+ (TraceObj EvOp/EvCtor): trace validation of object histories with dirty destinations and of constructor contracts, representation observed by is_valid/full_eq/Debug after every step", "5 C11"),
+ "C15": ("abstract slot machine in TLA+: every recorded conversion chain must leave the value the direct conversion gives; narrowing failure leaves the destination unchanged", "5 C15"),
+ "C16": ("documented order in TLA+ (Order.tla); exhaustive TLC that it is a strict total order and equals the implementation's padded-array comparison; trace validation of ==/cmp/Hash/sort on a complete small domain and dual families", "5 C16"),
 }
 LEVEL_TEXT = "model_checking: TLC explores the scaled design exhaustively (every input, history and size up to the scaled limit) and validates every recorded step of real executions against the same specification at real constants; results at real constants cover the executions explored, not all inputs"
 NOTE = "trusted: SANY/TLC 1.8.0 + CommunityModules, my transcription of the property into TLA+ (cross-checked by L1=L0, L2 refines L1), the harness recorders (serialisation only), rustc/cargo"
